@@ -1062,7 +1062,9 @@ def run(ctx, pid):
         if pid == "C11" and rng.random() < 0.04:
             cases.append(maxee_boundary_case(rng))
             continue
-        if pid == "C17" and rng.random() < 0.1:
+        if (pid == "C17" and rng.random() < 0.1) or (pid == "C03" and rng.random() < 0.06):
+            # (C03: with the index in use the written read is still a slice / an equally long masked copy, also when the read is
+            # nothing but a damaged adapter and shorter than the longest indexed string)
             cases.append(indexed_info_case(rng))
             continue
         if pid == "C11" and rng.random() < 0.04:
